@@ -12,13 +12,88 @@ from .report import RuleRun
 PROPERTY_TEXT = {}      # prop id -> (decided, not decided); filled by rules/*
 
 
+GLOBAL_NORMALISE = True
+_ANCHORS = None
+
+
+def rule_anchor_names():
+    """Every identifier that occurs inside a string literal of the rule
+    sources: the functions the rules know by name. A private helper whose
+    name no rule mentions is an implementation detail of its callers."""
+    global _ANCHORS
+    if _ANCHORS is None:
+        import glob
+        import os
+        import re
+        names = set()
+        here = os.path.dirname(os.path.abspath(__file__))
+        for p in glob.glob(os.path.join(here, 'rules', '*.py')) + [
+                os.path.join(here, x) for x in ('analysis.py', 'tokstate.py',
+                                                'stateflow.py', 'resolve.py')]:
+            tree = ast.parse(open(p, encoding='utf-8').read())
+            for n in ast.walk(tree):
+                if isinstance(n, ast.Constant) and isinstance(n.value, str) \
+                        and len(n.value) < 200:
+                    names |= set(re.findall(r'[A-Za-z_][A-Za-z0-9_]*', n.value))
+        _ANCHORS = frozenset(names)
+    return _ANCHORS
+
+
 class Analysis:
     def __init__(self, root):
         t0 = time.time()
         self.repo = Repo(root)
         self.rs = Resolver(self.repo)
         self._memo = {}
+        self.normalised_functions = 0
+        if GLOBAL_NORMALISE:
+            self._normalise_all()
         self.setup_s = time.time() - t0
+
+    def _normalise_all(self):
+        """Every function is analysed in its normalised view: private helpers
+        no rule knows by name are expanded into their callers, alias locals of
+        self attributes are substituted (sa/inline.py)."""
+        from .inline import normalised
+        keep = rule_anchor_names()
+        swaps = []
+        for f in list(self.repo.all_functions()):
+            if f.module.name.startswith('bardolph.fakes'):
+                continue
+            g = normalised(self, f, keep)
+            if g is not f:
+                swaps.append((f, g))
+        if not swaps:
+            return
+        # a helper every caller has absorbed has no life of its own: rules
+        # that walk "all functions" must not see it a second time, detached
+        # from the context (lock, loop, guard) it runs in
+        expanded_by = {}
+        for f, g in swaps:
+            for h in getattr(g, 'expanded', ()):
+                expanded_by.setdefault(h, set()).add(f)
+        absorbed = set()
+        for h, by in expanded_by.items():
+            callers = set(s.func for s in self.rs.callers(h))
+            if callers and callers <= by:
+                absorbed.add(h)
+        for f, g in swaps:
+            f.original_node = f.node
+            f.node = g.node
+            f._cfg = None
+            f.expanded = getattr(g, 'expanded', set())
+        for h in absorbed:
+            mod = h.module
+            if h in mod.all_functions:
+                mod.all_functions.remove(h)
+            if h.cls is not None and h.cls.methods.get(h.name) is h:
+                del h.cls.methods[h.name]
+            elif h.cls is None and mod.functions.get(h.name) is h:
+                del mod.functions[h.name]
+        self.absorbed_helpers = sorted(h.short for h in absorbed)
+        self.normalised_functions = len(swaps)
+        self.rs = Resolver(self.repo)
+        self._memo = {}
 
     # ------------------------------------------------------------ basics
     def func(self, mod, name):
